@@ -56,6 +56,7 @@ DEFAULT_PROFILE = {
     "flat": False,                 # C18: only int/bits/data, no modifiers
     "p_backward_at": 0.25,
     "p_describe": 0.0,             # length = Int(n).describe(AutoLength(next)); next = Data(length)
+    "p_backrun": 0.0,              # idiom: fields placed high first, then a run of plain fixed fields placed back at the start
 }
 
 
@@ -361,6 +362,24 @@ class Gen:
         nfields = rng.randint(1, self.p["max_fields"])
         fields = decl["fields"]
         pos_lb = 0   # static lower bound of the cursor relative to the packet start
+        if depth == 0 and not class_align and rng.random() < self.p["p_backrun"]:
+            # index_at = Int(1).at(H); index = <fixed>.at(index_at); then a run of 2-4 plain fixed fields starting at(0)
+            H = rng.choice([6, 8, 9, 12])
+            fields.append({"name": "f0", "t": "int", "n": 1, "signed": False, "endian": None,
+                           "move": {"op": "at", "arg": {"form": "const", "e": ["c", H]}, "ref": rng.choice(["innermost-pkt", None])},
+                           "hint": {"pos": [1, 2, 3, 4, 5, H + 1]}})
+            second = {"name": "f1", "t": "int", "n": rng.choice([1, 2]), "signed": False, "endian": None} if rng.random() < 0.7 else \
+                     {"name": "f1", "t": "data", "mode": "const", "size": rng.choice([1, 2, 3])}
+            second["move"] = {"op": "at", "arg": {"form": rng.choice(["field", "lambda"]), "e": ["f", "f0"]}, "ref": "innermost-pkt"}
+            fields.append(second)
+            for k in range(rng.randint(2, 4)):
+                f = {"name": "f%d" % len(fields), "t": "int", "n": rng.choice([1, 2, 2, 4]), "signed": False,
+                     "endian": rng.choice([None, None, "big"])} if rng.random() < 0.75 else \
+                    {"name": "f%d" % len(fields), "t": "data", "mode": "const", "size": rng.choice([1, 2])}
+                if k == 0:
+                    f["move"] = {"op": "at", "arg": {"form": "const", "e": ["c", 0]}, "ref": "innermost-pkt"}
+                fields.append(f)
+            nfields = max(nfields, len(fields))
         i = 0
         while len(fields) < nfields:
             fname = "f%d" % len(fields)
